@@ -343,6 +343,15 @@ class CallsMixin:
             fc = self.reg.fns.get(f"{cls.__module__}:{cls.__qualname__}.__init__")
             obj = SObj(cls, {})
             if fc is not None and not self.is_inlining(fc.qualname):
+                # constructor by contract: all declared fields start unconstrained, the
+                # postcondition of __init__ (plus the class invariant) pins them down
+                cc = self.reg.classes.get(f"{cls.__module__}:{cls.__qualname__}")
+                if cc is None:
+                    raise Unsupported(f"__init__ contract for {cls.__qualname__} needs a class contract")
+                obj.tag = self.ctx.fresh_name(cls.__name__.lower())
+                for f_, t_ in list(cc.fields.items()) + list(cc.ghost.items()):
+                    obj.fields[f_] = self.make_symbolic(t_, f"{obj.tag}.{f_}", assume_inv=False)
+                self.register_shared(obj)
                 self.apply_contract(fc, [obj] + list(args), kwargs, fr)
             else:
                 md = method_def(cls, "__init__")
